@@ -682,7 +682,7 @@ theorem fdtw_spec (sqrt : α → α) (big : α) (w : α → α → α) (dim : Na
     (walk (fun i j => st'.A.get? (i, j)) (n1 + n2) (n2 - 1, n1 - 1)) (T w 0 D (n2 - 1) (n1 - 1))
     (fun s hs => by have := hb s hs; omega)
   refine ⟨_, rows, ?_, bp, hd, hcost, hl, hp⟩
-  unfold fdtw
+  unfold fdtw fdtwOn
   rw [distCols_eq]
   simp only [Option.bind_eq_bind]
   rw [hD 0 0 h2 h1]
